@@ -1,6 +1,5 @@
 import SigpyVerif.Model.C03
 import SigpyVerif.Lemmas.C03
-import SigpyVerif.Gen.StackParams
 /-
   C03 — Operator algebra agrees with matrix algebra and advertised shapes.
 
@@ -11,36 +10,79 @@ import SigpyVerif.Gen.StackParams
   statement holds for ℂ and for the Gaussian rationals the driver computes with.
 
   Proved here:            composition order, sum / difference / scaling laws, rejection of misfits
-                          (`*_build_iff`), advertised shape (`call_shape`), the stacking parameters
-                          (`stack_build_iff`, `stack_indices_prefix_sums`, `stack_none_accepts_all`),
-                          the slab bounds used by `_apply` (`slab_bounds`), the slab partition of one row
-                          (`slabs_read_concat`, `slabs_write_concat`) and of a whole array along an axis
-                          (`assembleAx_concat`: Vstack/Diag output = concatenation along the axis).
+                          (`*_build_iff`), the EXACT shape guards of `Linop.apply` (`call_iff`, `call_shape`; the guard
+                          is a common-prefix test, `natGuard_iff_prefix`, and equality for equal ranks), the stacking
+                          parameters (`stack_build_iff`, `stack_indices_prefix_sums`, `stack_none_accepts_all`,
+                          `stackParams_some_stacked`), the slab bounds used by `_apply` (`slab_bounds`), the slab
+                          partition of one row (`slabs_read_concat`, `slabs_write_concat`) and of N-d arrays along an
+                          axis, READ side (`sliceAx_concat`, `slabs_concat`) and WRITE side (`assembleAx_concat`,
+                          `assemble_concat`), and the operator-level block-matrix statements for every operand list
+                          that passes `build`: `vstack_block_col`, `hstack_block_row`, `diag_block_diag` (all four
+                          oaxis/iaxis combinations incl. the mixed None / axis cases).
   Tied to the source by the translator (`Gen/StackParams.lean`, regenerated on every run):
-                          `gen_params_agree`, `gen_apply_axis_agree` — axis normalisation, the step expressions,
-                          append-before-advance and the rejection test of `_hstack_params/_vstack_params`, and the
-                          `axis % ndim` of the `_apply` methods are the ones the model uses.
-  Validated by correspondence only:  that numpy slicing/assignment behave as `sliceAx`/`rowWrite`,
-                          the dual statement for reading slabs of an N-d array (`sliceAx` of a
-                          concatenation returns the parts; proved here for one row), leaf operators.
+                          `gen_params_agree`, `gen_apply_axis_agree` here; in `Props/C03Loop.lean` the faithful
+                          statement-by-statement translation of `_hstack_params/_vstack_params` (fold over shapes, fold over
+                          `range(ndim)`) is proved equal to the combined test used here (`gen_loop_eq_combined`), and the
+                          generated `_check_ishape/_check_oshape` equal `zipGuard` (`gen_guard_agree`).
+  Validated by correspondence only:  that numpy slicing/assignment behave as `sliceAx`/`rowWrite` on operands of the
+                          advertised shapes (broadcasting of off-rank operands is not modelled), leaf operators.
 -/
 namespace SigpyVerif.C03
 
 /-! ### advertised shapes -/
 
-/-- `A(x).shape == A.oshape`, and `A` only accepts inputs of shape `A.ishape`: whatever `_apply` does,
-    `Linop.apply` returns an array only if it has the advertised shape. -/
+/-- **`Linop.apply`, exactly**: `A(x)` returns `y` iff `x.shape` passes the zip guard against `A.ishape`,
+    `_apply` returns `y`, and `y.shape` passes the zip guard against `A.oshape` (`natGuard` = `zipGuard` on
+    positive shapes; by `natGuard_iff_prefix` a common-prefix test: `zip` stops at the shorter shape). -/
+theorem call_iff {α} (A : Op α) (x y : NDArr α) :
+    A.call x = .ok y ↔
+      (natGuard x.shape A.ishape = true ∧ A.app x = .ok y ∧ natGuard y.shape A.oshape = true) := by
+  unfold Op.call
+  by_cases hx : natGuard x.shape A.ishape = true
+  · rw [if_pos hx]
+    cases hA : A.app x with
+    | error e => simp
+    | ok y' =>
+      by_cases hy : natGuard y'.shape A.oshape = true
+      · simp only [hy, if_true, Except.ok.injEq, hx, true_and]
+        constructor
+        · rintro rfl; exact ⟨rfl, hy⟩
+        · rintro ⟨h, _⟩; exact h
+      · simp only [hy, Bool.false_eq_true, if_false, hx, true_and, Except.ok.injEq]
+        constructor
+        · intro h; cases h
+        · rintro ⟨rfl, h⟩; exact absurd h hy
+  · rw [if_neg hx]
+    constructor
+    · intro h; cases h
+    · rintro ⟨h, _⟩; exact absurd h hx
+
+/-- **advertised shapes**: whatever `_apply` does, `Linop.apply` returns an array only if input and output pass the
+    exact guards; for an input / output of the advertised RANK this is `x.shape = A.ishape`, `A(x).shape = A.oshape`
+    (the case the property quantifies over). -/
 theorem call_shape {α} (A : Op α) (x y : NDArr α) (h : A.call x = .ok y) :
-    y.shape = A.oshape ∧ x.shape = A.ishape := by
-  unfold Op.call at h
-  split at h
-  · rename_i hx
-    split at h
-    · split at h
-      · rename_i hy; cases h; exact ⟨hy, hx⟩
-      · cases h
-    · cases h
-  · cases h
+    natGuard y.shape A.oshape = true ∧ natGuard x.shape A.ishape = true ∧
+      (y.shape.length = A.oshape.length → y.shape = A.oshape) ∧
+      (x.shape.length = A.ishape.length → x.shape = A.ishape) := by
+  obtain ⟨hx, _, hy⟩ := (call_iff A x y).mp h
+  exact ⟨hy, hx, fun hl => (natGuard_eq_iff _ _ hl).mp hy, fun hl => (natGuard_eq_iff _ _ hl).mp hx⟩
+
+/-- an operator is shape-honest when `_apply` maps well-formed inputs of shape `ishape` to well-formed outputs of
+    shape `oshape` (true of every dense leaf and preserved by the combinators) -/
+def Op.Honest {α} (A : Op α) : Prop :=
+  ∀ x y, x.shape = A.ishape → x.WF → A.app x = .ok y → y.shape = A.oshape ∧ y.WF
+
+/-- on inputs of the advertised shape `Linop.apply` of a shape-honest operator is `_apply` -/
+theorem call_of_shape {α} (A : Op α) (x y : NDArr α) (hx : x.shape = A.ishape) (hy : y.shape = A.oshape)
+    (h : A.app x = .ok y) : A.call x = .ok y :=
+  (call_iff A x y).mpr ⟨by rw [hx]; exact natGuard_refl _, h, by rw [hy]; exact natGuard_refl _⟩
+
+/-- the guard is NOT equality: `Identity([2,3])` applied to an array of shape `[2]` passes both guards and returns
+    an array whose shape is not the advertised `oshape` (the zip stops after the first entry). -/
+example : ∃ (A : Op Nat) (y : NDArr Nat), idOp [2, 3] = .ok A ∧ A.call ⟨[2], [7, 8]⟩ = .ok y ∧ y.shape ≠ A.oshape :=
+  ⟨_, ⟨[2], [7, 8]⟩, rfl, rfl, by decide⟩
+/-- … while an input that differs inside the common prefix is rejected -/
+example : ∃ (A : Op Nat), idOp [2, 3] = .ok A ∧ A.call ⟨[3], [7, 8, 9]⟩ = .error .apply := ⟨_, rfl, rfl⟩
 
 /-! ### Compose -/
 
@@ -122,7 +164,7 @@ theorem scaleR_apply {α} [Mul α] (a : α) (A : Op α) :
       ∀ x, x.shape = A.ishape → C.app x = A.call ⟨x.shape, x.data.map (· * a)⟩ := by
   refine ⟨⟨A.oshape, A.ishape, composeApp [A, mulOp A.ishape a]⟩, ?_, rfl, rfl, fun x hx => ?_⟩
   · simp [scaleR, compose, List.getLast?, List.getLast, composeOk, mulOp]
-  · simp [composeApp, Op.call, mulOp, hx]
+  · simp [composeApp, Op.call, mulOp, hx, natGuard_refl]
 
 /-- `-A` is `(-1) * A` and `A - B` is `A + (-1) * B` (what `__neg__`/`__sub__` build). -/
 theorem neg_sub_def {α} [Add α] [Zero α] [Mul α] [Neg α] [One α] (A B : Op α) :
@@ -163,6 +205,17 @@ theorem normAxis_spec (ax : Int) (n a : Nat) :
     constructor
     · intro h'; cases h'
     · rintro ⟨h1, h2, _⟩; exact absurd ⟨h1, h2⟩ h
+
+theorem normAxis_eq (ax : Int) (n a : Nat) (h : normAxis ax n = .ok a) :
+    (a : Int) = pyMod ax n ∧ a = (pyMod ax n).toNat := by
+  have hs := (normAxis_spec ax n a).mp h
+  unfold normAxis at h
+  rw [if_pos ⟨hs.1, hs.2.1⟩] at h
+  cases h
+  have hn : (0 : Int) < n := by omega
+  have h1 : 0 ≤ pyMod ax n := by
+    rw [pyMod_of_pos _ hn]; exact Int.emod_nonneg ax (by omega)
+  exact ⟨Int.toNat_of_nonneg h1, rfl⟩
 
 /-- **build_error_iff for the stacking parameters**: with an axis, the operands are accepted exactly when
     the axis lies in `[-ndim, ndim)` and every further shape has the same rank and agrees with the first
@@ -240,15 +293,6 @@ theorem bounds_short (ind : List Nat) (nops : Nat) (h : ind.length + 1 ≠ nops)
 
 /-! ### the slabs partition the stacked axis -/
 
-/-- reading: slicing the concatenation of the parts at the slab bounds returns the parts (Hstack/Diag input side,
-    one row; `c` = number of entries behind the axis). -/
-theorem slabs_read_concat {β : Type} (c : Nat) (segs : List (List β))
-    (sizes : List Nat) (hs : segs.map List.length = sizes.map (· * c)) :
-    ((specBounds 0 sizes).map (fun b => (b.1 * c, b.2.map (· * c)))).map
-      (fun b => selRange b.1 b.2 segs.flatten) = segs := by
-  rw [specBounds_scale, Nat.zero_mul, ← hs]
-  simpa using selRange_concat segs []
-
 /-- writing: assigning the parts to the slab bounds of a fresh row yields their concatenation
     (Vstack/Diag output side, one row). -/
 theorem slabs_write_concat {β : Type} (z : β) (c : Nat) (segs : List (List β)) (hne : segs ≠ [])
@@ -265,12 +309,6 @@ theorem slabs_write_concat {β : Type} (z : β) (c : Nat) (segs : List (List β)
   rw [hsum]
   simpa using rowWrites_concat z segs [] hne
 
-/-- `np.concatenate(ys, axis=a)` in flat row-major form: for every index tuple in front of the axis, the
-    rows of the operands one after the other (`inner` = number of entries behind the axis). -/
-def concatAx {α} (outer inner : Nat) (a : Nat) (ys : List (NDArr α)) : List α :=
-  ((List.range outer).map fun o =>
-    (ys.map fun y => rowOf ((geom y.shape a).n * inner) o y.data).flatten).flatten
-
 theorem allRows_ok {β} (f : Nat → Except Err (List β)) (g : Nat → List β) (m : Nat)
     (h : ∀ o, o < m → f o = .ok (g o)) : allRows f m = .ok ((List.range m).map g) := by
   induction m with
@@ -279,13 +317,6 @@ theorem allRows_ok {β} (f : Nat → Except Err (List β)) (g : Nat → List β)
     simp only [allRows]
     rw [ih (fun o ho => h o (by omega)), h m (by omega)]
     simp [List.range_succ]
-
-theorem length_rowOf {β} (k o : Nat) (l : List β) (h : (o + 1) * k ≤ l.length) :
-    (rowOf k o l).length = k := by
-  unfold rowOf
-  have : o * k + k ≤ l.length := by rw [Nat.add_mul] at h; simpa using h
-  simp only [List.length_take, List.length_drop]
-  omega
 
 /-- **Vstack / Diag output side, whole array**: when operand `k` is assigned to the slab
     `[S_k, S_{k+1})` of the axis (bounds as computed from the returned indices, `end = None` for the last),
@@ -395,48 +426,413 @@ theorem vstack_uses_slab_bounds {α} [Zero α] (A : Op α) (l : List (Op α)) (a
     · cases h
   · cases h
 
-/-! ### tie to the source: the expressions the translator extracts from `_hstack_params`, `_vstack_params`
-and the `_apply` methods (regenerated on every run into `Gen/StackParams.lean`) are the ones the model uses -/
+/-! ### operator level: Vstack / Hstack / Diag are the block column / row / diagonal
 
-theorem normAxis_eq (ax : Int) (n a : Nat) (h : normAxis ax n = .ok a) :
-    (a : Int) = pyMod ax n ∧ a = (pyMod ax n).toNat := by
-  have hs := (normAxis_spec ax n a).mp h
-  unfold normAxis at h
-  rw [if_pos ⟨hs.1, hs.2.1⟩] at h
-  cases h
-  have hn : (0 : Int) < n := by omega
-  have h1 : 0 ≤ pyMod ax n := by
-    rw [pyMod_of_pos _ hn]; exact Int.emod_nonneg ax (by omega)
-  exact ⟨Int.toNat_of_nonneg h1, rfl⟩
+`Stacked` (Lemmas) is what the stacking parameters establish (`stackParams_some_stacked`); `sliceAx_concat` (Lemmas) is
+the N-d read side (outer × axis × inner decomposition of the row-major layout), `assembleAx_concat` the N-d write side;
+`slabs_concat` / `assemble_concat` put them together with the indices `_hstack_params/_vstack_params` return, for an
+axis and for `None`; the three block theorems follow by unfolding `_apply`. -/
 
-/-- **the source normalises the axis** before the comparison `i == axis`, for both parameter functions: for every
-    axis in `[-ndim, ndim)` the loops compare with `axis mod ndim`, add `shape[i]` to the shape entry and to the
-    running index, append the index *before* advancing it, and reject exactly an off-axis difference — the
-    steps of the model's `stackFold` / `compat`.  (Breaks when e.g. the normalisation is removed, the appended
-    value is shifted, or the rejection test is weakened.) -/
-theorem gen_params_agree (ax : Int) (n a : Nat) (h : normAxis ax n = .ok a) (acc sh idx : Nat) (i : Int) :
-    (Gen.hstackAxis ax n = a ∧ Gen.vstackAxis ax n = a) ∧
-    (Gen.hstackOnAxis i (Gen.hstackAxis ax n) n = decide (i = a) ∧
-      Gen.vstackOnAxis i (Gen.vstackAxis ax n) n = decide (i = a)) ∧
-    (Gen.hstackShapeStep acc sh idx = ((acc + sh : Nat) : Int) ∧ Gen.vstackShapeStep acc sh idx = ((acc + sh : Nat) : Int)) ∧
-    (Gen.hstackIdxStep acc sh idx = ((idx + sh : Nat) : Int) ∧ Gen.vstackIdxStep acc sh idx = ((idx + sh : Nat) : Int)) ∧
-    (Gen.hstackAppended acc sh idx = idx ∧ Gen.vstackAppended acc sh idx = idx) ∧
-    (Gen.hstackAppendBeforeAdvance = true ∧ Gen.vstackAppendBeforeAdvance = true) ∧
-    (Gen.hstackRejects i (Gen.hstackAxis ax n) n acc sh = decide (sh ≠ acc) ∧
-      Gen.vstackRejects i (Gen.vstackAxis ax n) n acc sh = decide (sh ≠ acc)) := by
-  have ha := (normAxis_eq ax n a h).1
-  refine ⟨⟨ha.symm, ha.symm⟩, ⟨?_, ?_⟩, ⟨by simp [Gen.hstackShapeStep], by simp [Gen.vstackShapeStep]⟩,
-    ⟨by simp [Gen.hstackIdxStep], by simp [Gen.vstackIdxStep]⟩, ⟨rfl, rfl⟩, ⟨rfl, rfl⟩, ⟨?_, ?_⟩⟩
-  · simp only [Gen.hstackOnAxis, Gen.hstackAxis, ha]; rfl
-  · simp only [Gen.vstackOnAxis, Gen.vstackAxis, ha]; rfl
-  · simp only [Gen.hstackRejects]; congr 1; simp only [ne_eq, Int.natCast_inj]
-  · simp only [Gen.vstackRejects]; congr 1; simp only [ne_eq, Int.natCast_inj]
+theorem set_getD_self (s : List Nat) (a : Nat) : s.set a (s.getD a 0) = s := by
+  apply List.ext_getElem?
+  intro i
+  by_cases h : a = i
+  · subst h
+    by_cases h2 : a < s.length
+    · simp [h2, List.getD_eq_getElem?_getD]
+    · simp [h2]
+  · simp [List.getElem?_set_ne h]
 
-/-- the `_apply` methods slice along `axis mod ndim` (what `slab` / `assemble` use) -/
-theorem gen_apply_axis_agree (ax ndim : Int) :
-    Gen.hstackApplyAxis ax ndim = pyMod ax ndim ∧ Gen.vstackApplyAxis ax ndim = pyMod ax ndim ∧
-      Gen.diagApplyIAxis ax ndim = pyMod ax ndim ∧ Gen.diagApplyOAxis ax ndim = pyMod ax ndim :=
-  ⟨rfl, rfl, rfl, rfl⟩
+theorem fits_eq_set (a : Nat) (s0 sh : List Nat) (h : Fits a s0 sh) : sh = s0.set a (sh.getD a 0) := by
+  apply List.ext_getElem?
+  intro i
+  by_cases hi : a = i
+  · subst hi
+    by_cases h2 : a < s0.length
+    · have h3 : a < sh.length := by rw [h.1]; exact h2
+      simp [h2, h3, List.getD_eq_getElem?_getD]
+    · have h3 : ¬ a < sh.length := by rw [h.1]; exact h2
+      simp [h2]; omega
+  · rw [List.getElem?_set_ne hi]
+    by_cases h2 : i < s0.length
+    · have := h.2 i h2 (Ne.symm hi)
+      have h3 : i < sh.length := by rw [h.1]; exact h2
+      simp [List.getD_eq_getElem?_getD, h2, h3] at this
+      simp [h2, h3, this]
+    · have h3 : ¬ i < sh.length := by rw [h.1]; exact h2
+      simp at h2 h3
+      simp [h2, h3]
+
+/-- **what the stacking parameters establish** (axis given): the returned shape `S` has the operands' rank, every
+    operand shape is `S` with its own entry on the normalised axis `a = axis mod ndim`, the axis entries add up to
+    `S[a]`, and the indices are the running sums. -/
+theorem stackParams_some_stacked (s0 : List Nat) (rest : List (List Nat)) (ax : Int) (S ind : List Nat)
+    (h : stackParams (s0 :: rest) (some ax) = .ok (S, ind)) :
+    Stacked (pyMod ax S.length).toNat S (s0 :: rest) ∧
+      ind = prefixFrom (s0.getD (pyMod ax S.length).toNat 0) (rest.map (·.getD (pyMod ax S.length).toNat 0)) ∧
+      ∀ sh ∈ s0 :: rest, sh.length = S.length := by
+  obtain ⟨a, hn, hS, hind⟩ := stack_indices_prefix_sums s0 rest ax S ind h
+  obtain ⟨a', hn', hfit⟩ := (stack_build_iff s0 rest ax).mp ⟨_, h⟩
+  rw [hn] at hn'; cases hn'
+  have hlen : S.length = s0.length := by rw [hS]; simp
+  have ha := (normAxis_eq ax s0.length a hn).2
+  have hlt := ((normAxis_spec ax s0.length a).mp hn).2.2.1
+  rw [hlen, ← ha]
+  refine ⟨⟨by rw [hlen]; exact hlt, ?_, ?_⟩, hind, ?_⟩
+  · intro sh hsh
+    rcases List.mem_cons.mp hsh with rfl | hsh
+    · rw [hS, List.set_set]; exact (set_getD_self _ a).symm
+    · rw [hS]; simp only [List.set_set]; exact fits_eq_set a s0 sh (hfit sh hsh)
+  · rw [hS]
+    simp [List.getD_eq_getElem?_getD, hlt]
+  · intro sh hsh
+    rcases List.mem_cons.mp hsh with rfl | hsh
+    · rfl
+    · exact (hfit sh hsh).1
+
+
+/-- the 1-D array of the entries of `p` (`p.ravel()`) -/
+def flat {α} (p : NDArr α) : NDArr α := ⟨[p.data.length], p.data⟩
+
+/-- `np.concatenate` of the parts along `axis` (normalised modulo the rank of the stacked shape `S`), for
+    `axis = None` of their ravelled entries — in flat row-major form, carrying the stacked shape `S`. -/
+def concatOpt {α} (axis : Option Int) (S : List Nat) (parts : List (NDArr α)) : NDArr α :=
+  match axis with
+  | none => ⟨S, (parts.map (·.data)).flatten⟩
+  | some ax => ⟨S, concatAx (geom S (pyMod ax S.length).toNat).outer (geom S (pyMod ax S.length).toNat).inner
+      (pyMod ax S.length).toNat parts⟩
+
+theorem concatAx_flat {α} (xs : List (NDArr α)) :
+    concatAx 1 1 0 (xs.map flat) = (xs.map (·.data)).flatten := by
+  unfold concatAx
+  simp only [List.range_one, List.map_cons, List.map_nil, List.flatten_cons, List.flatten_nil, List.append_nil,
+    List.map_map]
+  congr 1
+  apply List.map_congr_left
+  intro y _
+  simp [Function.comp, flat, geom, rowOf]
+
+theorem geom_one (N : Nat) : geom [N] 0 = ⟨1, N, 1⟩ := by simp [geom, sprod]
+
+theorem slabs_some_ok {α} (ax : Int) (a : Nat) (x : NDArr α) : ∀ (ss : List (List Nat))
+    (bs : List (Nat × Option Nat)) (ps : List (NDArr α)),
+    (∀ s ∈ ss, (pyMod ax s.length).toNat = a) → ss.length = bs.length →
+    bs.map (fun b => sliceAx x a b.1 b.2) = ps → slabs (some ax) x ss bs = .ok ps := by
+  intro ss
+  induction ss with
+  | nil =>
+    intro bs ps _ hl hp
+    cases bs with
+    | nil => cases hp; rfl
+    | cons b bs => simp at hl
+  | cons s ss ih =>
+    intro bs ps ha hl hp
+    cases bs with
+    | nil => simp at hl
+    | cons b bs =>
+      cases ps with
+      | nil => simp at hp
+      | cons p ps =>
+        simp only [List.map_cons, List.cons.injEq] at hp
+        simp only [slabs, slab, ha s (by simp), hp.1]
+        rw [ih bs ps (fun s' hs' => ha s' (by simp [hs'])) (by simpa using hl) hp.2]
+
+theorem slabs_none_ok {α} (x : NDArr α) : ∀ (ps : List (NDArr α)) (bs : List (Nat × Option Nat)),
+    bs.map (fun b => sliceAx x 0 b.1 b.2) = ps.map flat → (∀ p ∈ ps, p.WF) →
+    slabs none x (ps.map (·.shape)) bs = .ok ps := by
+  intro ps
+  induction ps with
+  | nil =>
+    intro bs hp _
+    cases bs with
+    | nil => rfl
+    | cons b bs => simp at hp
+  | cons p ps ih =>
+    intro bs hp hwf
+    cases bs with
+    | nil => simp at hp
+    | cons b bs =>
+      simp only [List.map_cons, List.cons.injEq] at hp
+      have hw : p.data.length = sprod p.shape := hwf p (by simp)
+      simp only [List.map_cons, slabs, slab, hp.1, reshape, flat, hw, if_true]
+      rw [ih bs hp.2 (fun q hq => hwf q (by simp [hq]))]
+
+/-- **N-d write side with the stacking facts**: assigning well-formed parts of the stacked shapes to their slabs
+    yields their concatenation along the axis. -/
+theorem assembleAx_stacked {α} [Zero α] (a : Nat) (S : List Nat) (ys : List (NDArr α)) (hne : ys ≠ [])
+    (hst : Stacked a S (ys.map (·.shape))) (hwf : ∀ y ∈ ys, y.WF) :
+    assembleAx S a (specBounds 0 (ys.map fun y => (geom y.shape a).n)) ys =
+      .ok ⟨S, concatAx (geom S a).outer (geom S a).inner a ys⟩ := by
+  apply assembleAx_concat S a ys hne _ rfl
+  · have := hst.total
+    simpa [geom, List.map_map, Function.comp_def] using this
+  · intro y hy
+    rw [hwf y hy]
+    exact (geom_part a S y.shape hst.lt (hst.shape y.shape (List.mem_map.mpr ⟨y, hy, rfl⟩))).2.2
+
+
+theorem stacked_flat {α} (ps : List (NDArr α)) (N : Nat) (hN : N = (ps.map (·.data.length)).sum) :
+    Stacked 0 [N] ((ps.map flat).map (·.shape)) := by
+  refine ⟨by simp, ?_, ?_⟩
+  · intro sh hsh
+    simp only [List.map_map, List.mem_map, Function.comp, flat] at hsh
+    obtain ⟨p, _, rfl⟩ := hsh
+    simp
+  · simp [List.map_map, Function.comp_def, flat, hN]
+
+theorem wf_flat {α} (ps : List (NDArr α)) : ∀ y ∈ ps.map flat, y.WF := by
+  intro y hy
+  simp only [List.mem_map] at hy
+  obtain ⟨p, _, rfl⟩ := hy
+  simp [NDArr.WF, flat, sprod]
+
+/-- the slab bounds computed by `_apply` from the returned indices, for parts of the operand shapes -/
+theorem stack_bounds {α} (shapes : List (List Nat)) (axis : Option Int) (S ind : List Nat)
+    (h : stackParams shapes axis = .ok (S, ind)) (ps : List (NDArr α)) (hsh : ps.map (·.shape) = shapes)
+    (hwf : ∀ p ∈ ps, p.WF) :
+    match axis with
+    | none => bounds ind ps.length = .ok (specBounds 0 ((ps.map flat).map fun y => (geom y.shape 0).n)) ∧
+        S = [(ps.map (·.data.length)).sum]
+    | some ax => bounds ind ps.length =
+        .ok (specBounds 0 (ps.map fun y => (geom y.shape (pyMod ax S.length).toNat).n)) ∧
+        Stacked (pyMod ax S.length).toNat S (ps.map (·.shape)) ∧
+        ∀ sh ∈ shapes, sh.length = S.length := by
+  cases shapes with
+  | nil => cases axis <;> simp [stackParams] at h
+  | cons s0 rest =>
+    cases ps with
+    | nil => simp at hsh
+    | cons p0 pr =>
+      simp only [List.map_cons, List.cons.injEq] at hsh
+      obtain ⟨h0, hr⟩ := hsh
+      cases axis with
+      | none =>
+        rw [stack_none_accepts_all] at h
+        simp only [Except.ok.injEq, Prod.mk.injEq] at h
+        obtain ⟨hS, hind⟩ := h
+        have hb := slab_bounds (sprod s0) (rest.map sprod)
+        have hsz : (pr.map (·.data.length)) = rest.map sprod := by
+          rw [← hr, List.map_map]
+          apply List.map_congr_left
+          intro p hp
+          exact hwf p (by simp [hp])
+        have h0' : p0.data.length = sprod s0 := by rw [← h0]; exact hwf p0 (by simp)
+        refine ⟨?_, ?_⟩
+        · have hl : pr.length = rest.length := by rw [← hr]; simp
+          simp only [List.length_map] at hb
+          rw [← hl] at hb
+          rw [← hind, List.length_cons, hb]
+          simp only [List.map_cons, List.map_map, Function.comp_def, flat, geom, List.getD_cons_zero]
+          rw [h0']
+          congr 3
+          rw [← hsz]
+        · rw [← hS]; simp [h0', hsz]
+      | some ax =>
+        obtain ⟨hst, hind, hlen⟩ := stackParams_some_stacked s0 rest ax S ind h
+        have hb := slab_bounds (s0.getD (pyMod ax S.length).toNat 0)
+          (rest.map (·.getD (pyMod ax S.length).toNat 0))
+        refine ⟨?_, ?_, hlen⟩
+        · have hl : pr.length = rest.length := by rw [← hr]; simp
+          simp only [List.length_map] at hb
+          rw [← hl] at hb
+          rw [hind, List.length_cons, hb]
+          simp only [List.map_cons, geom, h0, ← hr, List.map_map, Function.comp_def]
+        · simp only [List.map_cons, h0, hr]; exact hst
+
+
+/-- **input side (Hstack / Diag)**: with the indices returned by `_hstack_params`, the slabs `_apply` cuts out of the
+    concatenation of well-formed parts of the operand shapes are exactly the parts, in order (for `axis = None`:
+    `input[start:end].reshape(ishape_k)` of the concatenated ravelled parts). -/
+theorem slabs_concat {α} (shapes : List (List Nat)) (axis : Option Int) (S ind : List Nat)
+    (h : stackParams shapes axis = .ok (S, ind)) (xs : List (NDArr α)) (hsh : xs.map (·.shape) = shapes)
+    (hwf : ∀ x ∈ xs, x.WF) :
+    ∃ bs, bounds ind xs.length = .ok bs ∧ slabs axis (concatOpt axis S xs) shapes bs = .ok xs := by
+  have hb := stack_bounds shapes axis S ind h xs hsh hwf
+  cases axis with
+  | none =>
+    obtain ⟨hb, hS⟩ := hb
+    refine ⟨_, hb, ?_⟩
+    rw [← hsh]
+    apply slabs_none_ok _ _ _ _ hwf
+    have := sliceAx_concat 0 S (xs.map flat) (by rw [hS]; exact stacked_flat xs _ rfl) (wf_flat xs)
+    rw [hS, geom_one, concatAx_flat] at this
+    simp only [concatOpt, hS]
+    exact this
+  | some ax =>
+    obtain ⟨hb, hst, hlen⟩ := hb
+    refine ⟨_, hb, ?_⟩
+    apply slabs_some_ok ax (pyMod ax S.length).toNat
+    · intro s hs; rw [hlen s hs]
+    · rw [length_specBounds, ← hsh]; simp
+    · exact sliceAx_concat _ S xs hst hwf
+
+/-- **output side (Vstack / Diag)**: with the indices returned by `_vstack_params`, assigning well-formed operand
+    outputs of the operand shapes to their slabs (`output[slc_k] = y_k`, for `axis = None` `output[start:end] = y_k.ravel()`)
+    yields their concatenation along the normalised axis, carrying the advertised shape — every entry written once. -/
+theorem assemble_concat {α} [Zero α] (shapes : List (List Nat)) (axis : Option Int) (S ind : List Nat)
+    (h : stackParams shapes axis = .ok (S, ind)) (ys : List (NDArr α)) (hsh : ys.map (·.shape) = shapes)
+    (hwf : ∀ y ∈ ys, y.WF) :
+    assemble axis S ind ys = .ok (concatOpt axis S ys) := by
+  have hb := stack_bounds shapes axis S ind h ys hsh hwf
+  have hne : ys ≠ [] := by
+    rintro rfl
+    cases axis <;> simp [← hsh, stackParams] at h
+  unfold assemble
+  cases axis with
+  | none =>
+    obtain ⟨hb, hS⟩ := hb
+    rw [hb]
+    have := assembleAx_stacked 0 S (ys.map flat) (by simpa using hne)
+      (by rw [hS]; exact stacked_flat ys _ rfl) (wf_flat ys)
+    rw [hS, geom_one, concatAx_flat] at this
+    simp only [concatOpt, hS]
+    exact this
+  | some ax =>
+    obtain ⟨hb, hst, _⟩ := hb
+    rw [hb]
+    exact assembleAx_stacked _ S ys hne hst hwf
+
+
+/-- **Vstack is the block column.**  For every operand list that passes `build` and every input on which all
+    operands succeed with outputs of their advertised shapes: applying `Vstack(ops, axis)` to `x` yields the
+    concatenation, in order, of the operands' outputs `ops_k(x)` along the normalised axis (`axis = None`: of their
+    flattened outputs), with the advertised `oshape`. -/
+theorem vstack_block_col {α} [Zero α] (A : Op α) (l : List (Op α)) (axis : Option Int) (V : Op α)
+    (h : vstack (A :: l) axis = .ok V) (x : NDArr α) (ys : List (NDArr α))
+    (hys : callAll (A :: l) (List.replicate (l.length + 1) x) = .ok ys)
+    (hsh : ys.map (·.shape) = (A :: l).map Op.oshape) (hwf : ∀ y ∈ ys, y.WF) :
+    V.app x = .ok (concatOpt axis V.oshape ys) := by
+  simp only [vstack] at h
+  split at h
+  · split at h
+    · rename_i osh ind hs
+      cases h
+      simp only [vstackApp, List.length_cons, hys]
+      exact assemble_concat _ axis osh ind hs ys hsh hwf
+    · cases h
+  · cases h
+
+/-- **Hstack is the block row.**  For every operand list that passes `build` and well-formed inputs `x_1 … x_n` of the
+    operands' ishapes: applying `Hstack(ops, axis)` to the concatenation `x_1 ‖ … ‖ x_n` along the normalised axis
+    (`axis = None`: of the flattened inputs) yields `Σ_k ops_k(x_k)` (entrywise sum, `sumResults`), whenever every
+    `ops_k(x_k)` succeeds. -/
+theorem hstack_block_row {α} [Add α] [Zero α] (A : Op α) (l : List (Op α)) (axis : Option Int) (H : Op α)
+    (h : hstack (A :: l) axis = .ok H) (xs ys : List (NDArr α))
+    (hxs : xs.map (·.shape) = (A :: l).map Op.ishape) (hwf : ∀ x ∈ xs, x.WF)
+    (hys : callAll (A :: l) xs = .ok ys) :
+    H.app (concatOpt axis H.ishape xs) = .ok (sumResults H.oshape ys) := by
+  simp only [hstack] at h
+  split at h
+  · split at h
+    · rename_i ish ind hs
+      cases h
+      obtain ⟨bs, hb, hsl⟩ := slabs_concat _ axis ish ind hs xs hxs hwf
+      have hl : xs.length = (A :: l).length := by
+        have := congrArg List.length hxs; simpa using this
+      rw [hl] at hb
+      simp only [hstackApp, hb, hsl, hys]
+    · cases h
+  · cases h
+
+/-- **Diag is the block diagonal** — both at once, for all four combinations of `oaxis` / `iaxis` being an axis or
+    `None` (including the mixed cases): applying `Diag(ops, oaxis, iaxis)` to the concatenation of well-formed inputs
+    `x_k` (of the operands' ishapes) along `iaxis` yields the concatenation of the outputs `ops_k(x_k)` along `oaxis`. -/
+theorem diag_block_diag {α} [Zero α] (A : Op α) (l : List (Op α)) (oaxis iaxis : Option Int) (D : Op α)
+    (h : diag (A :: l) oaxis iaxis = .ok D) (xs ys : List (NDArr α))
+    (hxs : xs.map (·.shape) = (A :: l).map Op.ishape) (hwfx : ∀ x ∈ xs, x.WF)
+    (hys : callAll (A :: l) xs = .ok ys)
+    (hsh : ys.map (·.shape) = (A :: l).map Op.oshape) (hwfy : ∀ y ∈ ys, y.WF) :
+    D.app (concatOpt iaxis D.ishape xs) = .ok (concatOpt oaxis D.oshape ys) := by
+  simp only [diag] at h
+  split at h
+  · cases h
+  · rename_i ish iind hi
+    split at h
+    · cases h
+    · rename_i osh oind ho
+      cases h
+      obtain ⟨bs, hb, hsl⟩ := slabs_concat _ iaxis ish iind hi xs hxs hwfx
+      have hl : xs.length = (A :: l).length := by
+        have := congrArg List.length hxs; simpa using this
+      rw [hl] at hb
+      simp only [diagApp, hb, hsl, hys]
+      exact assemble_concat _ oaxis osh oind ho ys hsh hwfy
+
+
+theorem foldl_zipWith_entry {α} [Add α] [Zero α] (n i : Nat) (hi : i < n) : ∀ (ys : List (NDArr α)) (acc : List α),
+    acc.length = n → (∀ y ∈ ys, y.data.length = n) →
+    (ys.foldl (fun acc y => List.zipWith (· + ·) acc y.data) acc)[i]? =
+      some (ys.foldl (fun s y => s + y.data.getD i 0) (acc.getD i 0)) := by
+  intro ys
+  induction ys with
+  | nil =>
+    intro acc hacc _
+    simp [List.getD_eq_getElem?_getD, List.getElem?_eq_getElem (hacc ▸ hi)]
+  | cons y ys ih =>
+    intro acc hacc hys
+    have hy : y.data.length = n := hys y (by simp)
+    simp only [List.foldl_cons]
+    rw [ih _ (by simp [hacc, hy]) (fun z hz => hys z (by simp [hz]))]
+    congr 2
+    simp [List.getD_eq_getElem?_getD, List.getElem?_zipWith, List.getElem?_eq_getElem (hacc ▸ hi),
+      List.getElem?_eq_getElem (hy ▸ hi)]
+
+/-- **the Hstack result is the entrywise sum**: entry `i` of `sumResults oshape ys` is `0 + y_1[i] + … + y_n[i]`
+    (left to right, as `output = 0; output = output + y_k`) when every `y_k` has `prod oshape` entries. -/
+theorem sumResults_entry {α} [Add α] [Zero α] (osh : List Nat) (ys : List (NDArr α))
+    (hys : ∀ y ∈ ys, y.data.length = sprod osh) (i : Nat) (hi : i < sprod osh) :
+    (sumResults osh ys).shape = osh ∧
+      (sumResults osh ys).data[i]? = some (ys.foldl (fun s y => s + y.data.getD i 0) 0) := by
+  refine ⟨rfl, ?_⟩
+  unfold sumResults
+  simp only
+  rw [foldl_zipWith_entry (sprod osh) i hi ys _ (by simp) hys]
+  simp [List.getD_eq_getElem?_getD, hi]
+
+theorem concatOpt_shape {α} (axis : Option Int) (S : List Nat) (ps : List (NDArr α)) :
+    (concatOpt axis S ps).shape = S := by cases axis <;> rfl
+
+/-- the same through `Linop.apply` (guards included): an input of the advertised ishape passes, the block column has
+    the advertised oshape and passes -/
+theorem vstack_block_col_call {α} [Zero α] (A : Op α) (l : List (Op α)) (axis : Option Int) (V : Op α)
+    (h : vstack (A :: l) axis = .ok V) (x : NDArr α) (ys : List (NDArr α)) (hx : x.shape = V.ishape)
+    (hys : callAll (A :: l) (List.replicate (l.length + 1) x) = .ok ys)
+    (hsh : ys.map (·.shape) = (A :: l).map Op.oshape) (hwf : ∀ y ∈ ys, y.WF) :
+    V.call x = .ok (concatOpt axis V.oshape ys) :=
+  call_of_shape V x _ hx (concatOpt_shape _ _ _) (vstack_block_col A l axis V h x ys hys hsh hwf)
+
+theorem diag_block_diag_call {α} [Zero α] (A : Op α) (l : List (Op α)) (oaxis iaxis : Option Int) (D : Op α)
+    (h : diag (A :: l) oaxis iaxis = .ok D) (xs ys : List (NDArr α))
+    (hxs : xs.map (·.shape) = (A :: l).map Op.ishape) (hwfx : ∀ x ∈ xs, x.WF)
+    (hys : callAll (A :: l) xs = .ok ys)
+    (hsh : ys.map (·.shape) = (A :: l).map Op.oshape) (hwfy : ∀ y ∈ ys, y.WF) :
+    D.call (concatOpt iaxis D.ishape xs) = .ok (concatOpt oaxis D.oshape ys) :=
+  call_of_shape D _ _ (concatOpt_shape _ _ _) (concatOpt_shape _ _ _)
+    (diag_block_diag A l oaxis iaxis D h xs ys hxs hwfx hys hsh hwfy)
+
+/-! non-vacuity: concrete stacks (scalars `Nat`) -/
+example : concatOpt (α := Nat) (some (-1)) [2, 3] [⟨[2, 1], [1, 2]⟩, ⟨[2, 2], [3, 4, 5, 6]⟩] =
+    ⟨[2, 3], [1, 3, 4, 2, 5, 6]⟩ := rfl
+example : concatOpt (α := Nat) none [6] [⟨[2, 1], [1, 2]⟩, ⟨[2, 2], [3, 4, 5, 6]⟩] = ⟨[6], [1, 2, 3, 4, 5, 6]⟩ := rfl
+/-- `Hstack([1·, 2·], axis=0)` on `[1,2] ‖ [3,4]` is `1·[1,2] + 2·[3,4]` -/
+example : (match hstack [mulOp [2] (1 : Nat), mulOp [2] 2] (some 0) with
+    | .ok H => (match H.app ⟨[4], [1, 2, 3, 4]⟩ with | .ok y => some (H.ishape, y.shape, y.data) | .error _ => none)
+    | .error _ => none) = some ([4], [2], [7, 10]) := by decide
+/-- `Diag([I[1,2], I[2,2]], oaxis=None, iaxis=0)`: the mixed case -/
+example : (match diag [mulOp [1, 2] (1 : Nat), mulOp [2, 2] 3] none (some (-2)) with
+    | .ok D => (match D.app ⟨[3, 2], [1, 2, 3, 4, 5, 6]⟩ with | .ok y => some (D.oshape, D.ishape, y.shape, y.data) | .error _ => none)
+    | .error _ => none) = some ([6], [3, 2], [6], [1, 2, 9, 12, 15, 18]) := by decide
+
+/-- the hypotheses of `diag_block_diag` are satisfiable (mixed case `oaxis = None`, `iaxis = -2`) -/
+example : ∃ (D : Op Nat) (xs ys : List (NDArr Nat)),
+    diag [mulOp [1, 2] (1 : Nat), mulOp [2, 2] 3] none (some (-2)) = .ok D ∧
+    xs.map (·.shape) = [mulOp [1, 2] (1 : Nat), mulOp [2, 2] 3].map Op.ishape ∧ (∀ x ∈ xs, x.WF) ∧
+    callAll [mulOp [1, 2] (1 : Nat), mulOp [2, 2] 3] xs = .ok ys ∧
+    ys.map (·.shape) = [mulOp [1, 2] (1 : Nat), mulOp [2, 2] 3].map Op.oshape ∧ (∀ y ∈ ys, y.WF) ∧
+    concatOpt (some (-2)) D.ishape xs = ⟨[3, 2], [1, 2, 3, 4, 5, 6]⟩ ∧
+    concatOpt none D.oshape ys = ⟨[6], [1, 2, 9, 12, 15, 18]⟩ :=
+  ⟨_, [⟨[1, 2], [1, 2]⟩, ⟨[2, 2], [3, 4, 5, 6]⟩], [⟨[1, 2], [1, 2]⟩, ⟨[2, 2], [9, 12, 15, 18]⟩], rfl, rfl,
+    by simp [NDArr.WF, sprod], rfl, rfl, by simp [NDArr.WF, sprod], rfl, rfl⟩
 
 example : stackParams [[2, 3], [2, 4], [2, 1]] (some (-1)) = .ok ([2, 8], [3, 7]) := by decide
 example : stackParams [[2, 3], [2, 4]] (some 0) = .error .build := by decide
